@@ -17,7 +17,7 @@ FLAKY = {"TestCodecConnWriteNext", "TestCodecConnReadNext", "TestCodecConnAsyncW
 
 
 def sh(cmd, cwd=None, timeout=900):
-    p = subprocess.run(cmd, shell=True, cwd=cwd, env=ENV, stdout=subprocess.PIPE, stderr=subprocess.STDOUT, timeout=timeout, text=True)
+    p = subprocess.run(cmd, shell=True, cwd=cwd, env=ENV, stdout=subprocess.PIPE, stderr=subprocess.STDOUT, timeout=timeout, text=True, errors="replace")
     return p.returncode, p.stdout
 
 
